@@ -151,7 +151,8 @@ func runC11(c *ctx, via string, vol float64, repeat, freq, peak, sd time.Duratio
 		w.Tol = int64(math.Ceil(1.5*edge*expect + 2 + 1e-6*expect))
 		if via == "rates-jitter" {
 			// with jitter only "requests are never negative" is a per-tick statement (C13 covers the totals)
-			w.Tol, w.PeakV = int64(expect)*3+1000, w.MaxV
+			// (what jitter holds back at the end of one window is delivered in the next - also in a silent one)
+			w.Tol, w.PeakV = int64(expect)*3+1000+int64(vol), w.MaxV
 		}
 		tr.Windows = append(tr.Windows, w)
 	}
